@@ -554,6 +554,9 @@ class NumInterp(Interp):
             if isinstance(base, dict):
                 base[t.attr] = v
                 return
+            if getattr(type(base), '_fdx_settable', False):  # model objects of a rule that opt in to attribute stores
+                setattr(base, t.attr, v)
+                return
         if isinstance(t, ast.Subscript):
             cont = self.ev(t.value)
             idx = self.ev(t.slice)
